@@ -12,8 +12,17 @@ def model_run(progs, tag="mfile", timeout=600, max_steps=400, workers=8):
     os.makedirs(os.path.join(vlib.WORK, "progs"), exist_ok=True)
     path = os.path.join(vlib.WORK, "progs", "%s-%d.ndjson" % (tag, os.getpid()))
     with open(path, "w") as f:
-        for pid, toks in progs:
-            f.write(json.dumps({"id": pid, "prog": toks}) + "\n")
+        for item in progs:
+            pid, body = item[0], item[1]
+            if isinstance(body, dict):
+                snips = [{"prog": sn.get("prog", []), "bad": bool(sn.get("bad")), "messages": sn.get("messages", []),
+                          "reset": bool(sn.get("reset"))} for sn in body["snips"]]
+                mods = [{"path": md["path"], "prog": md.get("prog", []), "bad": bool(md.get("bad")), "msg": md.get("msg", "")}
+                        for md in body.get("mods", [])]
+            else:
+                snips = [{"prog": body, "bad": False, "messages": [], "reset": False}]
+                mods = []
+            f.write(json.dumps({"id": pid, "snips": snips, "mods": mods}) + "\n")
     out = {}
     res = vlib.run_tlc("MC_MachineFile", "MC_MachineFile.cfg", workers=workers, timeout=timeout, env_extra={"PROGS": path},
                        on_line=lambda t, o: out.__setitem__(o["id"], o) if t == "RUN" else None, keep_lines=False, tag=tag)
@@ -21,8 +30,23 @@ def model_run(progs, tag="mfile", timeout=600, max_steps=400, workers=8):
     return out, res
 
 
+def case_of(pid, body, gc="default"):
+    if isinstance(body, dict):
+        snippets = []
+        for sn in body["snips"]:
+            if sn.get("reset"):
+                snippets.append({"reset": True})
+            elif sn.get("bad"):
+                snippets.append({"src": sn["src"]})
+            else:
+                snippets.append({"src": yprog.program_src(sn["prog"])})
+        modules = {md["path"]: (md["src"] if md.get("bad") else yprog.program_src(md["prog"])) for md in body.get("mods", [])}
+        return {"id": pid, "snippets": snippets, "modules": modules, "gc": gc, "natives": True}
+    return {"id": pid, "main": yprog.program_src(body), "gc": gc, "modules": {}, "natives": True}
+
+
 def impl_run(binary, progs, gc="default", modules=None, timeout=30):
-    cases = [{"id": pid, "main": yprog.program_src(toks), "gc": gc, "modules": modules or {}, "natives": True} for pid, toks in progs]
+    cases = [case_of(item[0], item[1], gc) for item in progs]
     return {c["id"]: r for c, r in zip(cases, vlib.Pool(binary, "run", timeout=timeout).map(cases))}
 
 
@@ -30,7 +54,21 @@ def compare(model, impl):
     """-> None if they agree, else a description.  model: RUN record; impl: harness reply."""
     if "runs" not in impl:
         return "implementation did not finish normally: %r" % ({k: impl[k] for k in impl if k != "events"},)
-    run = impl["runs"][0]
+    mruns = model.get("runs")
+    if mruns is not None and len(mruns) > 1:
+        if len(mruns) != len(impl["runs"]):
+            return "number of snippet results differs: spec %d impl %d" % (len(mruns), len(impl["runs"]))
+        for i, (mr, ir) in enumerate(zip(mruns, impl["runs"])):
+            if mr["result"]["kind"] == "reset":
+                continue
+            msg = compare_one(mr, ir)
+            if msg:
+                return "snippet %d: %s" % (i + 1, msg)
+        return None
+    return compare_one(model, impl["runs"][0])
+
+
+def compare_one(model, run):
     got_out = [vlib.norm_addr(s) for s in run.get("out", [])]
     if got_out != list(model["out"]):
         return "printed output differs: spec %r impl %r" % (model["out"], got_out)
@@ -40,6 +78,11 @@ def compare(model, impl):
         if run["kind"] != model["result"]["kind"]:
             return "error kind differs: spec %r impl %r" % (model["result"]["kind"], run["kind"])
         got_msgs = [vlib.norm_addr(x) for x in run["messages"]]
-        if got_msgs != list(model["result"]["messages"]):
+        want = []
+        for x in model["result"]["messages"]:
+            want += x.split("\n")          # Error::with_messages splits the text into lines
+        if model["result"]["kind"] == "CompileError":
+            want = list(model["result"]["messages"])
+        if got_msgs != want:
             return "error messages differ: spec %r impl %r" % (model["result"]["messages"], got_msgs)
     return None
